@@ -79,6 +79,7 @@ def silent(rule) -> bool:
 
 # ------------------------------------------------------------------ C02.OP-MUNCH
 def rule_op_munch(ctx: Ctx, rid="C02.OP-MUNCH"):
+    ctx.require_table_driven()
     lc, pairs = munch_pairs(ctx)
     ops = operator_tokens(ctx)
     n = 0
@@ -110,6 +111,7 @@ ALLOWED_MUNCH_REASON = "both rules are silent trivia of the same state: the rema
 
 def rule_all_munch(ctx: Ctx, rid="C07.MUNCH", only=None):
     """Every deviation from maximal munch must be on the allow-list."""
+    ctx.require_table_driven()
     for state in ctx.states:
         lc, pairs = munch_pairs(ctx, state)
         bad_j = {}
@@ -136,6 +138,7 @@ def rule_all_munch(ctx: Ctx, rid="C07.MUNCH", only=None):
 
 
 def rule_wordsplit(ctx: Ctx, rid="C07.KEYWORD-WORDSPLIT"):
+    ctx.require_table_driven()
     lc = ctx.main
     L = ctx.lexicon(lc.name)
     idi = id_rule(ctx)
@@ -167,6 +170,7 @@ def rule_wordsplit(ctx: Ctx, rid="C07.KEYWORD-WORDSPLIT"):
 
 
 def rule_no_dead(ctx: Ctx, rid="C07.NO-DEAD-TOKEN"):
+    ctx.require_table_driven()
     n = 0
     for state, lc in ctx.states.items():
         L = ctx.lexicon(state)
@@ -228,6 +232,7 @@ def rule_token_spelling(ctx: Ctx, rid="C06.TOKEN-SPELLING", directions=("lexer<=
       lexer<=doc  no input makes the lexer hand the parser this token with a text outside the documented spelling
                   (a lone '=' taken for '=='): every final match of an emitting rule is judged by the reference monitor;
       doc<=lexer  every documented spelling, given as the whole input, is taken as exactly this token."""
+    ctx.require_table_driven()
     from pyab_static.rx import EOF, Lexicon, Matcher, _bfs, _path, _text, build_nfa
     import re as _re
     lc = ctx.main
@@ -470,6 +475,7 @@ def _atoms_of(L, pred):
 def rule_comment_end(ctx: Ctx, rid="C08.COMMENT-END"):
     """In every state entered by push_state, the lexer leaves exactly at the end of the first
     '*/' (reference monitor), whatever precedes and follows it."""
+    ctx.require_table_driven()
     pushes = [(lc, r) for lc in ctx.lexers.values() for r in lc.rules if r.action and r.action.pushes]
     n = 0
     for owner, opener in pushes:
@@ -538,6 +544,7 @@ def rule_comment_end(ctx: Ctx, rid="C08.COMMENT-END"):
 def rule_trivia_start(ctx: Ctx, rid="C08.TRIVIA-START"):
     """At a token boundary of the main state: '/*' always opens a comment (2 chars), '//' always
     takes the rest of the line and nothing more, white space is skipped and nothing more."""
+    ctx.require_table_driven()
     lc = ctx.main
     L = ctx.lexicon(lc.name)
     pushers = {i for i, r in enumerate(lc.rules) if r.action and r.action.pushes}
@@ -621,6 +628,7 @@ def rule_trivia_start(ctx: Ctx, rid="C08.TRIVIA-START"):
 
 
 def rule_trivia_silent(ctx: Ctx, rid="C08.TRIVIA-SILENT"):
+    ctx.require_table_driven()
     n = 0
     for state, lc in ctx.states.items():
         for r in lc.rules:
@@ -637,7 +645,29 @@ def rule_trivia_silent(ctx: Ctx, rid="C08.TRIVIA-SILENT"):
     ctx.rep.floor("ignore_ rules", n, 4)
 
 
+def rule_silent_only_trivia(ctx: Ctx, rid="C06.SILENT-ONLY-TRIVIA"):
+    """What the lexer skips without telling the parser is white space or a comment and nothing else: a silent rule (an `ignore_`
+    rule, sly's `ignore` characters, an action that returns nothing) whose match can begin with another character removes that
+    character from every text, so texts that contain it where no token allows it are accepted."""
+    ctx.require_table_driven()
+    lc = ctx.main
+    L = ctx.lexicon(lc.name)
+    n = 0
+    for i, r in enumerate(lc.rules):
+        if not silent(r):
+            continue
+        n += 1
+        odd = sorted(a for a in L.first_atoms(i) if isinstance(a, int) and a >= 0 and not chr(a).isspace() and chr(a) != "/")
+        ctx.rep.check(not odd, rid, f"language/lexer.py:{lc.name}.{r.name}",
+                      "skips only text that begins with white space or a comment opener" if not odd else
+                      f"silently skips text beginning with {[chr(a) for a in odd[:4]]!r} (U+{odd[0]:04X}): that character is neither white "
+                      "space nor part of a comment, yet a text with it between tokens is accepted", site=r.site,
+                      text=f"{r.name} {r.pattern}")
+    ctx.rep.floor("silent lexer rules", n, 2)
+
+
 def rule_trivia_munch(ctx: Ctx, rid="C08.TRIVIA-MUNCH"):
+    ctx.require_table_driven()
     for state in ctx.states:
         lc, pairs = munch_pairs(ctx, state)
         for i, j, w in pairs:
@@ -651,6 +681,7 @@ def rule_trivia_munch(ctx: Ctx, rid="C08.TRIVIA-MUNCH"):
 def rule_trivia_shield(ctx: Ctx, rid="C08.TRIVIA-SHIELD"):
     """Quoted strings and trivia openers cannot pre-empt each other: their first characters are
     disjoint, and a string body / comment body consumes the other's opener."""
+    ctx.require_table_driven()
     lc = ctx.main
     L = ctx.lexicon(lc.name)
     strs = [i for i, r in enumerate(lc.rules) if r.name == "STRING_LITERAL"]
@@ -674,6 +705,7 @@ def rule_trivia_shield(ctx: Ctx, rid="C08.TRIVIA-SHIELD"):
 
 
 def rule_string_minimal(ctx: Ctx, rid="C05.STRING-MINIMAL"):
+    ctx.require_table_driven()
     lc = ctx.main
     L = ctx.lexicon(lc.name)
     for i, r in enumerate(lc.rules):
@@ -764,6 +796,7 @@ MULTIWORD_REASON = ("is a documented multi-word token (white space inside it bel
 def rule_token_end_stable(ctx: Ctx, rid="C08.TOKEN-END-STABLE"):
     """A token that is complete at end of input stays the same token, with the same end, when trivia
     (white space, a line break, or the '/' of a comment) and anything else follow it."""
+    ctx.require_table_driven()
     lc = ctx.main
     L = ctx.lexicon(lc.name)
     followers = {a for a in L.atoms if a == ord("/") or chr(a).isspace()}
